@@ -117,7 +117,7 @@ class Glue:
             def h(ex):
                 Rec.calls, Rec.spawned, Rec.result = [], 0, handler_result
                 rc, rej, msg = R.build(ex, eps, list(range(len(eps))))
-                if rej is not None: raise Unsupported(f'glue table rejected: {msg}')
+                if rej is not None: return None            # this version assignment makes the table conflict: nothing to serve
                 RL.Ctx.cur_segments = rq.segs
                 hm = HMap([('api-version', httpmodel.SymHeaderValue(present, ascii_ok, parses, hv.adt())), ('x-other', HV('other'))])
                 request = httpmodel.Request(headers=hm, method=Opaque('reqmethod', rq), uri=uri, body=Opaque('incoming-body'), version=Opaque('HTTP/1.1'))
@@ -139,6 +139,7 @@ class Glue:
                     m = chk.prove(f'{ctx["tag"]}/no-panic', pc, z3.BoolVal(True), extra=assume)
                     if m is not None: chk.mismatches.append(f'http_request_handle panics ({tag}, {policy}, {mode}): {r}')
                     continue
+                if r is None: continue
                 assertions(chk, ex, pc, r, ctx)
         return n_paths
 
